@@ -316,6 +316,32 @@ def generate():
     mut_from = re.search(r"From<&'a mut ScionUdpPacketView> for &'a mut ScionRawPacketView", t) is not None
     out.append(f"Definition udp_mut_into_raw_mut_impl : bool := {'true' if mut_from else 'false'}.")
     need(t, r"std::cmp::min\(layout\.header_len \+ layout\.payload_len, buf\.len\(\)\)", "ScionRawPacketView::has_required_size min()", rel)
+    # C02: the owned constructor requires the EXACT size (an oversized Box<[u8]> would be
+    # reinterpreted as Box<[u8; N]> by the fixed-size views); the borrowed ones split at `size`
+    rel = P + "core/view.rs"
+    t = strip_comments(src(rel))
+    need(t, r"fn try_from_boxed\(buf: Box<\[u8\]>\)[^{]*\{\s*let size = Self::has_required_size\(&buf\)\?;\s*if buf\.len\(\) != size \{\s*return Err\(",
+         "View::try_from_boxed exact-size check `buf.len() != size`", rel)
+    need(t, r"fn try_from_slice\(buf: &\[u8\]\)[^{]*\{\s*let size = Self::has_required_size\(buf\)\?;.*?buf\.split_at_unchecked\(size\)",
+         "View::try_from_slice splits at the required size", rel, re.S)
+    need(t, r"fn try_from_mut_slice\(buf: &mut \[u8\]\)[^{]*\{\s*let size = Self::has_required_size\(buf\)\?;.*?buf\.split_at_mut_unchecked\(size\)",
+         "View::try_from_mut_slice splits at the required size", rel, re.S)
+    out.append("Definition boxed_ctor_requires_exact_size : bool := true.")
+    # C03: the bounds the encoder's gate compares the length fields against (the model's
+    # wire_valid uses the same numbers: Codec.packet_wire_valid)
+    rel = P + "proto/packet/model.rs"
+    t = strip_comments(src(rel))
+    need(t, r"if self\.payload\.required_size\(self\.header\.required_size\(\)\) > u16::MAX as usize \{\s*return Err\(",
+         "ScionPacket::wire_valid payload bound `payload size > u16::MAX as usize`", rel)
+    rel = P + "proto/payload/udp/model.rs"
+    t = strip_comments(src(rel))
+    need(t, r"if UdpDatagramLayout::HEADER_SIZE_BYTES \+ self\.payload\.len\(\) > u16::MAX as usize \{\s*return Err\(",
+         "UdpDatagram::wire_valid bound `8 + payload > u16::MAX as usize`", rel)
+    rel = P + "proto/header/model.rs"
+    t = strip_comments(src(rel))
+    need(t, r"if required_size > ScionHeaderLayout::MAX_SIZE_BYTES \{\s*return Err\(",
+         "ScionPacketHeader::wire_valid bound `required_size > MAX_SIZE_BYTES`", rel)
+    out.append("Definition PAYLOAD_LEN_MAX : N := 65535.   (* u16::MAX, pinned in ScionPacket::wire_valid and UdpDatagram::wire_valid *)")
     # UDP view: set_length is a safe writer over LENGTH_RNG (has_required_size depends on it)
     out.append(f"Definition udp_set_length_is_safe : bool := {'true' if is_safe('UdpDatagramView', 'set_length') else 'false'}.")
     emit("Tables.v", "\n".join(out) + "\n")
